@@ -281,7 +281,7 @@ impl KotoVm {
     /// Runs the provided [Chunk], returning the resulting [KValue]
     pub fn run(&mut self, chunk: Ptr<Chunk>) -> Result<KValue> {
         // Set up an execution frame to run the chunk in
-        let frame_base = self.next_register();
+        let frame_base = self.next_register(1)?;
         self.registers.push(KValue::Null); // Instance register
         self.push_frame(
             chunk,
@@ -358,7 +358,7 @@ impl KotoVm {
             return unexpected_type("Function", &function);
         }
 
-        let result_register = self.next_register();
+        let result_register = self.next_register(2)?;
         self.registers.push(KValue::Null); // Result register
 
         let args = match (&args, &function) {
@@ -377,7 +377,7 @@ impl KotoVm {
             _ => args,
         };
 
-        let frame_base = self.next_register();
+        let frame_base = self.next_register(1)?;
         self.registers.push(instance.unwrap_or_default()); // Frame base
 
         let arg_count = match args {
@@ -447,7 +447,7 @@ impl KotoVm {
 
     /// Provides the result of running a unary operation on a KValue
     pub fn run_unary_op(&mut self, op: UnaryOp, value: KValue) -> Result<KValue> {
-        let result_register = self.next_register();
+        let result_register = self.next_register(0)?;
         let result = self.run_unary_op_inner(op, value);
         // Ensure that the operation's registers are discarded if it exited early with an error
         self.truncate_registers(result_register);
@@ -459,7 +459,7 @@ impl KotoVm {
 
         let old_frame_count = self.call_stack.len();
 
-        let result_register = self.next_register();
+        let result_register = self.next_register(1)?;
         let value_register = result_register + 1;
 
         self.registers.push(KValue::Null); // `result_register`
@@ -494,7 +494,7 @@ impl KotoVm {
 
     /// Provides the result of running a binary operation on a pair of Values
     pub fn run_binary_op(&mut self, op: BinaryOp, lhs: KValue, rhs: KValue) -> Result<KValue> {
-        let result_register = self.next_register();
+        let result_register = self.next_register(0)?;
         let result = self.run_binary_op_inner(op, lhs, rhs);
         // Ensure that the operation's registers are discarded if it exited early with an error
         self.truncate_registers(result_register);
@@ -504,7 +504,7 @@ impl KotoVm {
     fn run_binary_op_inner(&mut self, op: BinaryOp, lhs: KValue, rhs: KValue) -> Result<KValue> {
         let old_frame_count = self.call_stack.len();
 
-        let result_register = self.next_register();
+        let result_register = self.next_register(2)?;
         let lhs_register = result_register + 1;
         let rhs_register = result_register + 2;
 
@@ -579,7 +579,7 @@ impl KotoVm {
         container: KValue,
         read_arg: KValue,
     ) -> Result<KValue> {
-        let result_register = self.next_register();
+        let result_register = self.next_register(0)?;
         let result = self.run_read_op_inner(op, container, read_arg);
         // Ensure that the operation's registers are discarded if it exited early with an error
         self.truncate_registers(result_register);
@@ -594,7 +594,7 @@ impl KotoVm {
     ) -> Result<KValue> {
         let old_frame_count = self.call_stack.len();
 
-        let result_register = self.next_register();
+        let result_register = self.next_register(2)?;
         let container_register = result_register + 1;
         let read_arg_register = result_register + 2;
 
@@ -626,7 +626,7 @@ impl KotoVm {
         write_arg: KValue,
         write_value: KValue,
     ) -> Result<KValue> {
-        let result_register = self.next_register();
+        let result_register = self.next_register(0)?;
         let result = self.run_write_op_inner(op, container, write_arg, write_value);
         // Ensure that the operation's registers are discarded if it exited early with an error
         self.truncate_registers(result_register);
@@ -642,7 +642,7 @@ impl KotoVm {
     ) -> Result<KValue> {
         let old_frame_count = self.call_stack.len();
 
-        let result_register = self.next_register();
+        let result_register = self.next_register(3)?;
         let container_register = result_register + 1;
         let write_arg_register = result_register + 2;
         let write_value_register = result_register + 3;
@@ -3785,8 +3785,14 @@ impl KotoVm {
     }
 
     // Returns the register id that corresponds to the next push to the value stack
-    fn next_register(&self) -> u8 {
-        (self.registers.len() - self.register_base) as u8
+    //
+    // Registers are addressed relative to the frame base with a u8, `additional` is the number of
+    // registers following the returned register that also need to be addressable.
+    fn next_register(&self, additional: u8) -> Result<u8> {
+        match u8::try_from(self.registers.len() - self.register_base) {
+            Ok(register) if register <= u8::MAX - additional => Ok(register),
+            _ => Err("Overflow of the current frame's register stack".into()),
+        }
     }
 
     // Sets the register, which must already be available in the stack
